@@ -82,16 +82,21 @@ _WR = ("tied to the code two ways: (A) byte-exact correspondence (transcripts an
        "split over mixed calls with header updates, crash-point snapshots and a different stale frames value, re-opened and compared on the implementation's own transcripts. ")
 CLAIMED["C01"] = dict(
     text="Proof (Lean 4): sample_roundtrip / data_roundtrip (decode∘encode = id for every lossless (encoding, caller type) pair, every length, every conversion setting), "
-         "file_roundtrip (open, any list of write calls, close: the data region is encodeAll of the samples and decodes back) for RAW/AU/WAV; " + _WR +
+         "file_roundtrip (open, any list of write calls, close: the data region is encodeAll of the samples and decodes back) for RAW/AU/WAV, and aiff_file_roundtrip "
+         "(SfProps/C01Aiff.lean: the same for every accepted AIFF/AIFF-C encoding incl. re-open info and exact frames; the campaign of vlib/aiff.py compares the audio bytes with the model's encoders); " + _WR +
          "Partial: block codecs (ALAC, DWVW, DPCM, SDS, PAF24) are covered by (B) only.",
     technique="Lean 4 theorems over a hand-written codec/handle model + differential correspondence + round-trip predicate on implementation transcripts",
     design_ref="DESIGN.md §7 C01")
 CLAIMED["C04"] = dict(
     text="Proof (Lean 4) about the container models: header writers/parsers of RAW, AU, WAV inside the handle model (re-open info, size fields, frame-count bounds, stale frames ignored), "
          "the geometry table of all containers, and stand-alone byte-exact models of AIFF/AIFF-C (SfModel/Aiff.lean; aiff_reopen_info: closed bytes of ANY session re-open with the "
-         "right channels, format, rate and frames; aiff_size_fields; aiff_rate_roundtrip for r < 2^30 with the proved 2^30 counter-example; aiff_frames_bound N <= F <= N+1), CAF and W64 "
+         "right channels, format, rate and frames; aiff_size_fields; aiff_rate_roundtrip for every r in [1, 2^31-1] and aiff_frames_exact F = N for every encoding, both full strength since the repairs of KF-AIFF-RATE-2P30 and KF-AIFF-ODD-PAD, the old rules kept as *_old_rule theorems), CAF and W64 "
          "(SfModel/Caf.lean, W64.lean; size fields and padding rules for every N, closed bytes independent of the stale frames value and of header updates, the W64 open-time 'fact' leak as a "
          "proved witness; the universal parse(image) theorem is not yet proved for CAF/W64: kernel-evaluated instances only). " + _WR +
+         "right channels, format, rate and frames; aiff_size_fields; aiff_rate_roundtrip for r < 2^30 with the proved 2^30 counter-example; aiff_frames_bound N <= F <= N+1), CAF and W64 "
+         "(SfModel/Caf.lean, W64.lean; size fields and padding rules for every N, closed bytes independent of the stale frames value and of header updates, caf_reopen_info / w64_reopen_info proved over the "
+         "parsers for every accepted configuration, N and data (CAF guard: audio <= 2^31-1 bytes); the W64 open-time 'fact' leak is repaired and kept as an _old_rule witness), "
+         "WAVEX and RF64 write-side models (SfModel/Wavex.lean, Rf64.lean: both RF64 header forms, auto-downgrade; session theorems for WAVEX; their readers are not modelled). " + _WR +
          "The stand-alone models are tied by their own campaigns: every accepted sample-granular encoding x channels x rates (incl. 1, 65536, 2^30, 2^31-1) x lengths, ALL header and tail bytes "
          "of the store after open, after a header update and after close, and the parsers on library files plus thousands of truncated/damaged variants. The geometry (block length, pad allowance, "
          "rate quantiser per container) is written from the format definitions, not measured. Partial: header bytes of the other 17 containers are not modelled (covered by B).",
